@@ -150,10 +150,8 @@ def bfs(conf, driver, res, depth, pool, budget):
                                sample={'cfg': conf, 'events': path + [strip(ev)], 'obs': o})
                 cls = ev.get('label') or (ev['k'] + ('_' + ev['t'] if 't' in ev else ''))
                 hit[(pre_state, cls)] = hit.get((pre_state, cls), 0) + 1
-                if not q.ok:
-                    return seen, hit, n_events, False
-                if q.skip:
-                    continue
+                if q.skip or not q.ok:
+                    continue       # diverged from the model: reported; keep exploring for the property oracles
                 key = state_key(o)
                 if key not in seen:
                     seen[key] = path + [strip(ev)]
@@ -200,7 +198,7 @@ def random_walk(conf, driver, res, r, pool, length, bias):
             if r.random() < 0.5 and len(b) > 1:
                 cut = r.randrange(1, len(b))
                 p.step({'k': 'chunk', 'c': ev['c'], 'hex': b[:cut].hex()})
-                if not p.ok or p.skip or not p.sim.enabled({'k': 'chunk', 'c': ev['c']}):
+                if p.skip or not p.sim.enabled({'k': 'chunk', 'c': ev['c']}):
                     break
                 ev = {'k': 'chunk', 'c': ev['c'], 'hex': b[cut:].hex()}
             else:
@@ -209,7 +207,7 @@ def random_walk(conf, driver, res, r, pool, length, bias):
         o = p.step(ev)
         res.stats.hit('walk_event_' + ev['k'])
         res.stats.hit('walk_state_' + o['state'])
-        if not p.ok or p.skip:
+        if p.skip:
             break
     res.stats.case(('walk', jdump(conf), jdump(p.trace)), sample=None)
     return p
@@ -239,12 +237,9 @@ def run(seed, tier, driver):
             break
     res.stats.hist['state_event_matrix_cells'] = len(allhit)
     nwalks = 150 if tier == 'quick' else 6000
-    if not res.disagreements:
-        for i in range(nwalks):
-            conf = r.choice(CONFIGS)
-            full = dict(S.DEFAULT_CFG); full.update(conf)
-            pool = SG.message_pool(full['remote_as'])
-            p = random_walk(conf, driver, res, r, pool, r.choice([20, 40, 80]), r.choice(['session', 'session', 'chaos', 'timers']))
-            if not p.ok:
-                break
+    for i in range(nwalks):
+        conf = r.choice(CONFIGS)
+        full = dict(S.DEFAULT_CFG); full.update(conf)
+        pool = SG.message_pool(full['remote_as'])
+        random_walk(conf, driver, res, r, pool, r.choice([20, 40, 80]), r.choice(['session', 'session', 'chaos', 'timers']))
     return res
